@@ -604,19 +604,42 @@ func ruleOwnGoroutine(c *Ctx, r *R, op ownedParam, key string, uses []ownUse) {
 			}
 		}
 	})
+	// the goroutine's body is a named function of the package that takes the stream over (eg.Go(func() error { return
+	// feed(ctx, s, …) })): that function's own parameter obligation (closed on every path) decides the closing
+	delegated := false
 	if deferClose == nil {
+		for _, in := range clo.Blocks[0].Instrs {
+			call, ok := in.(*ssa.Call)
+			if !ok {
+				continue
+			}
+			cal := staticCallee(&call.Call)
+			if cal == nil || cal.Blocks == nil || cal.Parent() != nil || !c.inModule(cal) {
+				continue
+			}
+			o := origin(cal)
+			for ai, a := range call.Call.Args {
+				if isVal(a) && ai < len(o.Params) && streamKind(o.Params[ai].Type()) != 0 && !isBorrower(c, o, o.Params[ai]) {
+					delegated = true
+				}
+			}
+		}
+	}
+	if deferClose == nil && !delegated {
 		r.violated(key, clo.Pos(), "the goroutine that owns "+op.param.Name()+" does not `defer "+op.param.Name()+".Close()`")
 		return
 	}
-	if deferClose.Block() != clo.Blocks[0] {
+	if delegated {
+		deferClose = nil
+	} else if deferClose.Block() != clo.Blocks[0] {
 		r.violated(key, deferClose.Pos(), "the deferred Close of the owned stream is conditional; it must be registered on every path before the first Next")
 		return
 	}
-	if firstNext != nil && !(deferClose.Block().Dominates(firstNext.Block())) {
+	if !delegated && firstNext != nil && !(deferClose.Block().Dominates(firstNext.Block())) {
 		r.violated(key, deferClose.Pos(), "the deferred Close does not dominate Next")
 		return
 	}
-	if started == "go" {
+	if started == "go" && !delegated {
 		if deferDone == nil {
 			r.violated(key, clo.Pos(), "goroutine started with `go` has no deferred WaitGroup.Done: the returned stream's Close cannot wait for the source to be closed")
 			return
